@@ -94,10 +94,10 @@ func newContent(pool []SvcSpec) *Content {
 
 // Stats is the measured distribution of what the generator produced.
 type Stats struct {
-	Ops      map[string]int
-	Lengths  map[int]int
-	Risky    int // operations generated without steering away from a registration clash
-	Probes   int
+	Ops     map[string]int
+	Lengths map[int]int
+	Risky   int // operations generated without steering away from a registration clash
+	Probes  int
 }
 
 func NewStats() *Stats { return &Stats{Ops: map[string]int{}, Lengths: map[int]int{}} }
